@@ -294,6 +294,7 @@ theorem step_coreChain {s : St} (h : CoreChain s) (op : Op) : CoreChain (step s 
     simp only [step, updateClient]
     cases w with
     | nested => exact h
+    | storedProposal => exact h
     | wrapped => exact h
     | nestedWrapped => exact h
     | top =>
@@ -320,7 +321,7 @@ theorem step_coreChain {s : St} (h : CoreChain s) (op : Op) : CoreChain (step s 
     simp only [step, chanInit]
     repeat' split
     all_goals exact h
-  | chanAck ch ibc =>
+  | chanAck ch w ibc =>
     simp only [step, chanAck]
     repeat' split
     all_goals exact h
